@@ -74,11 +74,6 @@ def run_one(args):
         return m['name'], res
     finally:
         shutil.rmtree(d, ignore_errors=True)
-        # drop the per-path dependency cache the exporter created for this scratch path
-        import hashlib, glob
-        tag = hashlib.sha1(os.path.abspath(d).encode()).hexdigest()[:8]
-        for t in glob.glob(os.path.join(VERIF, '.cache', 'target', '*-' + tag)):
-            shutil.rmtree(t, ignore_errors=True)
 
 
 def validate_one(args):
@@ -119,8 +114,23 @@ def main():
     bad = 0
     if cmd == 'run':
         work = [(m, i, False) for i, m in enumerate(sel)] + [(m, len(sel) + i, True) for i, m in enumerate(seln)]
+        import threading
+        slots = list(range(jobs))
+        lock = threading.Lock()
+
+        def with_slot(args):
+            m, _, neutral = args
+            with lock:
+                slot = slots.pop()
+            try:
+                return run_one((m, slot, neutral))
+            finally:
+                with lock:
+                    slots.append(slot)
+        global run_one_slot
+        run_one_slot = with_slot
         with cf.ThreadPoolExecutor(jobs) as ex:
-            for (m, slot, neutral), (name, res) in zip(work, ex.map(run_one, work)):
+            for (m, slot, neutral), (name, res) in zip(work, ex.map(with_slot, work)):
                 for prop, r in res.items():
                     if neutral:
                         ok = r['exit'] == 0
@@ -146,6 +156,14 @@ def main():
         old.update(results)
         json.dump(old, open(p, 'w'), indent=1, sort_keys=True)
     shutil.rmtree(SCRATCH, ignore_errors=True)
+    # drop the per-slot dependency caches the exporter created for the scratch paths
+    import glob
+    import hashlib
+    for i in range(0, 4000):
+        d = os.path.join(SCRATCH, 'w%d' % i)
+        tag = hashlib.sha1(os.path.abspath(d).encode()).hexdigest()[:8]
+        for t in glob.glob(os.path.join(VERIF, '.cache', 'target', '*-' + tag)):
+            shutil.rmtree(t, ignore_errors=True)
     return 1 if bad else 0
 
 
